@@ -3,7 +3,7 @@ import os
 from vlib import core, xh
 
 
-def main(prop, tier, file, obs, functions, assumptions, outside, signature, bounds):
+def main(prop, tier, file, obs, functions, assumptions, outside, signature, bounds, extra_results=None):
     chk = core.Check(prop, tier, "harness." + prop, functions, bounds, assumptions, outside)
     byfile = {}
     for ob in obs:
@@ -22,4 +22,6 @@ def main(prop, tier, file, obs, functions, assumptions, outside, signature, boun
             res["status"] = "inconclusive"
     chk.notes.append("xh: one `crosshair check --report_all` process per obligation; states/transitions count obligations (CrossHair does not report path counts).")
     chk.add_results(pairs)
+    if extra_results:
+        chk.add_results(extra_results)
     return chk.finish(signature)
